@@ -14,6 +14,7 @@ import (
 	"fmt"
 	"os"
 	"os/exec"
+	"strconv"
 	"syscall"
 	"time"
 
@@ -22,7 +23,9 @@ import (
 
 const (
 	helperEnv = "VERIF_C18_HELPER"
-	specEnv   = "VERIF_C18_SPEC"
+	// helperParentEnv: pid of the process that is the helper's direct parent (set only when there is no wrapper)
+	helperParentEnv = "VERIF_C18_HELPER_PARENT"
+	specEnv         = "VERIF_C18_SPEC"
 )
 
 type setValuesSpec struct {
@@ -97,6 +100,9 @@ func runHelper(role string, spec interface{}, dir string, wrapper []string, extr
 	cmd.Dir = dir
 	cmd.Env = append(os.Environ(), helperEnv+"="+role, specEnv+"="+specPath)
 	cmd.Env = append(cmd.Env, extraEnv...)
+	if len(wrapper) == 0 {
+		cmd.Env = append(cmd.Env, helperParentEnv+"="+strconv.Itoa(os.Getpid()))
+	}
 	var buf bytes.Buffer
 	cmd.Stdout = &buf
 	cmd.Stderr = &buf
